@@ -9,6 +9,7 @@ import numpy as np
 import shapely
 
 from harness import util
+from harness.gen import c07_extra as X
 from harness.gen import clipgeoms as CG
 from harness.gen import datasets as G
 
@@ -35,7 +36,12 @@ RULE = ('primitives: boolean arrays (thorough: every array of every shape 1..4 x
         'choices, c_mask_from_centres; dataset level: make_clip_mask of cf1d, cf2d, shoc_simple, shoc_standard, '
         'ugrid without / with an edge dimension x 14 geometry classes (box, polygon, line, point, multi-part, '
         'touching at an edge / corner / whole cell / from outside, covering everything, hugging the border, '
-        'outside, empty) x buffer -1..3, plus buffer_faces / mask_from_face_indexes on arbitrary face lists. '
+        'outside, empty) x buffer -1..3, plus buffer_faces / mask_from_face_indexes on arbitrary face lists; '
+        'ring counts comparable to and beyond the array size: sparse arrays up to 12x14 with the marked cells in '
+        'a corner / on the border / 1..3 cells from it / in the middle x blur_mask size 4..longer side + 2, and '
+        'make_clip_mask of grids up to 10x10 (and meshes) with a geometry strictly inside one cell chosen by the '
+        'same position classes (or a border strip / corner / box) x 5 ascending buffers from 3..longer side + 2, '
+        'each judged against the brute-force ring dilation and for buffer monotonicity. '
         'The GEOS truth table (ground-truth polygon .intersects(geometry), cell by cell) is the model\'s '
         '`intersects` oracle; the model gets the hits in a shuffled order. Non-trivial = the hit set is a '
         'proper non-empty subset of the cells, or buffer > 0 reaches the array border, or the hit order '
@@ -126,6 +132,18 @@ def dilate(t: np.ndarray, b: int) -> np.ndarray:
                     if t[jj, ii] and abs(jj - j) <= b and abs(ii - i) <= b:
                         hit = True
             out[j, i] = hit
+    return out
+
+
+def dilate_sparse(t: np.ndarray, b: int) -> np.ndarray:
+    """the same statement as `dilate`, evaluated per cell over the list of marked cells (for the
+    larger arrays): cell (j, i) is marked iff some marked cell is within b steps of it"""
+    ny, nx = t.shape
+    marked = [(int(j), int(i)) for j, i in zip(*np.nonzero(t))]
+    out = np.zeros((ny, nx), dtype=bool)
+    for j in range(ny):
+        for i in range(nx):
+            out[j, i] = any(max(abs(jj - j), abs(ii - i)) <= b for jj, ii in marked)
     return out
 
 
@@ -220,6 +238,33 @@ def prim_case(ctx, arr: np.ndarray, items: list, fails: list, kind: str) -> None
         ctx.nontrivial(('prim', sh, b))
 
 
+def blur_one(ctx, arr: np.ndarray, s: int, items: list, fails: list) -> None:
+    """one blur_mask call with an arbitrary size: op line for the model + the ring-dilation oracle
+    (any size >= 0; the property is silent about negative sizes, the model says numpy.pad refuses)"""
+    from emsarray import masking
+    ny, nx = arr.shape
+    sh, b = f'{ny}x{nx}', bits(arr)
+    line = f'blur {sh} {b} {s}'
+    desc = {'prim': {'shape': [ny, nx], 'bits': b}, 'size': s, 'op': line}
+    try:
+        got = np.asarray(masking.blur_mask(arr.copy(), size=s))
+    except Exception as e:
+        items.append((line, 'ERR', desc))
+        if s >= 0:
+            fails.append((arr.size, 'blur-raises', desc, f'blur_mask({sh} {b}, size={s}) raised {type(e).__name__}: {e}'))
+        return
+    if got.ndim != 2:
+        items.append((line, f'RANK{got.ndim}', desc))
+        fails.append((arr.size, 'blur-not-ring-dilation', desc, f'blur_mask({sh} {b}, size={s}) has shape {got.shape}'))
+        return
+    items.append((line, show_arr(got), desc))
+    if s >= 0:
+        exp = dilate_sparse(arr, s)
+        if got.shape != arr.shape or not np.array_equal(got.astype(bool), exp):
+            fails.append((arr.size, 'blur-not-ring-dilation', desc,
+                          f'blur_mask({sh} {b}, size={s}) = {show_arr(got)}, the {s}-ring dilation is {show_arr(exp)}'))
+
+
 def cmask_case(ctx, arr: np.ndarray, items: list, fails: list) -> None:
     from emsarray.conventions import arakawa_c
     K = arakawa_c.ArakawaCGridKind
@@ -273,17 +318,11 @@ def run_primitives(ctx, items: list, fails: list) -> None:
         if k % 3 == 0:
             cmask_case(ctx, arr, items, fails)
     # malformed stream: negative size (numpy.pad refuses), single blur ops with larger sizes
-    from emsarray import masking
     for _ in range(ctx.budget(40, 200)):
         ny, nx = rng.randint(1, 5), rng.randint(1, 5)
         arr = np.array([rng.random() < 0.3 for _ in range(ny * nx)], dtype=bool).reshape(ny, nx)
         s = rng.choice([-2, -1, 4, 5, 7])
-        try:
-            out = show_arr(masking.blur_mask(arr.copy(), size=s))
-        except Exception:
-            out = 'ERR'
-        line = f'blur {ny}x{nx} {bits(arr)} {s}'
-        items.append((line, out, {'prim': {'shape': [ny, nx], 'bits': bits(arr)}, 'size': s, 'op': line}))
+        blur_one(ctx, arr, s, items, fails)
         ctx.count('prim:malformed-or-large-size')
 
 
@@ -554,11 +593,7 @@ def run_datasets(ctx, items: list, fails: list, f1_lines: list) -> None:
                 for b in buffers:
                     clip_case(ctx, case, geom, gclass, b, items, fails, f1_lines, masks)
                 # enlarging the buffer never unmarks
-                for b0, b1 in zip(BUFFERS, BUFFERS[1:]):
-                    if b0 in masks and b1 in masks and not subset(masks[b0], masks[b1]):
-                        fails.append((case.ncell, 'mask-not-monotone-buffer',
-                                      {'recipe': recipe, 'geom': CG.to_hex(geom), 'wkt': geom.wkt[:300], 'buffer': b0, 'buffer2': b1},
-                                      f'buffer {b0} marks a cell that buffer {b1} does not'))
+                monotone_buffers(case, recipe, geom, BUFFERS, masks, fails)
                 # enlarging the geometry never unmarks
                 if rng.random() < 0.5 and not geom.is_empty:
                     big = CG.enlarge(rng, case.built, geom)
@@ -571,6 +606,63 @@ def run_datasets(ctx, items: list, fails: list, f1_lines: list) -> None:
                                       'a larger geometry unmarks a cell'))
             if case.conv == 'ugrid':
                 mesh_function_cases(ctx, case, items, fails)
+
+
+def run_large_rings(ctx, items: list, fails: list, f1_lines: list) -> None:
+    """Ring counts comparable to / beyond the array size ("the requested number of neighbour rings" has
+    no upper bound), with the marked cells / the clipped cell placed by position class: in a corner, on
+    the border, 1..3 cells from it, in the middle.  Primitive level and dataset level."""
+    rng = ctx.rng
+    for _ in range(ctx.budget(400, 2500)):
+        arr, where = X.sparse_mask(rng)
+        ny, nx = arr.shape
+        for s in X.ring_counts(rng, ny, nx, 3):
+            blur_one(ctx, arr, s, items, fails)
+            ctx.count('prim:large-size:' + where)
+            ctx.count('prim:size>=longer-side' if s >= max(ny, nx) else 'prim:size<longer-side')
+            if s < max(ny, nx) - 1:
+                ctx.nontrivial(('blur-large', f'{ny}x{nx}', bits(arr), s))
+    per_variant = ctx.budget(10, 60)
+    for variant in CONV_VARIANTS:
+        for _ in range(per_variant):
+            if variant.startswith('ugrid'):
+                recipe = recipe_for(rng, variant, ctx.tier)
+            else:
+                recipe = G.random_recipe(rng, variant, ctx.tier, max_n=rng.choice([6, 8, 10]))
+            try:
+                case = Case(recipe)
+            except Exception as e:  # generator / binding trouble is not a verdict
+                ctx.count(f'build-failed:{variant}:{type(e).__name__}')
+                continue
+            if case.conv == 'ugrid':
+                side = len(case.faces)
+            else:
+                side = max(case.ny, case.nx)
+            geoms = []
+            for where in rng.sample(X.POSITIONS, 2):
+                n = X.pick_cell(rng, case.built, where)
+                if n is not None:
+                    geoms.append(('inside-cell:' + where, X.inside_cell(rng, case.built, n)))
+            for gclass in rng.sample(['hug-strip', 'touch-corner', 'touch-outside', 'box', 'line'], 1):
+                try:
+                    geoms.append((gclass, CG.make(rng, case.built, gclass)))
+                except Exception as e:
+                    ctx.count(f'geom-failed:{gclass}:{type(e).__name__}')
+            for gclass, geom in geoms:
+                buffers = [3] + X.ring_counts(rng, side, side, 4)
+                masks: dict = {}
+                for b in buffers:
+                    clip_case(ctx, case, geom, 'rings:' + gclass, b, items, fails, f1_lines, masks)
+                monotone_buffers(case, recipe, geom, buffers, masks, fails)
+
+
+def monotone_buffers(case, recipe: dict, geom, buffers: list, masks: dict, fails: list) -> None:
+    """enlarging the buffer never unmarks (successive buffers of an ascending list)"""
+    for b0, b1 in zip(buffers, buffers[1:]):
+        if b0 in masks and b1 in masks and not subset(masks[b0], masks[b1]):
+            fails.append((case.ncell, 'mask-not-monotone-buffer',
+                          {'recipe': recipe, 'geom': CG.to_hex(geom), 'wkt': geom.wkt[:300], 'buffer': b0, 'buffer2': b1},
+                          f'buffer {b0} marks a cell that buffer {b1} does not'))
 
 
 def mesh_function_cases(ctx, case: Case, items: list, fails: list) -> None:
@@ -691,6 +783,7 @@ def run(ctx) -> None:
     run_corpus(ctx, items, fails, f1_lines)
     run_primitives(ctx, items, fails)
     run_datasets(ctx, items, fails, f1_lines)
+    run_large_rings(ctx, items, fails, f1_lines)
     # report oracle failures smallest input first, so that the replay written is a minimal one
     def priority(sig: str) -> int:
         if sig.startswith(('blur-', 'smear-', 'buffer-faces-')):
@@ -749,13 +842,10 @@ def run_one(ctx, inp: dict) -> dict:
         items: list = []
         fails: list = []
         dummy = _Dummy(random.Random(0))
-        prim_case(dummy, arr, items, fails, 'replay')
-        if 'size' in inp and inp.get('op', '').startswith('blur '):
-            try:
-                impl = show_arr(masking.blur_mask(arr.copy(), size=inp['size']))
-            except Exception:
-                impl = 'ERR'
-            items = [(inp['op'], impl, inp)]
+        if 'size' in inp and 'pad_axes' not in inp and not 0 <= inp['size'] <= 3 or inp.get('op', '').startswith('blur '):
+            blur_one(dummy, arr, inp['size'], items, fails)
+        else:
+            prim_case(dummy, arr, items, fails, 'replay')
         op = inp.get('op')
         chosen = [it for it in items if it[0] == op] or items
         out['impl'] = ' || '.join(it[1] for it in chosen)
